@@ -5,8 +5,8 @@ order) and c_k = compute_global_cost(points, S_k, cost) on a FRESH cache,
     grdp            == S_k*  for the least k* >= 2 with c_k* accepting (all points if none),
     mp_grdp(m)      == S_max(k*, min(m, n))   (continuation of non-initial stack / retained set),
     min_point_rdp   == grdp result of the largest listed t with >= m points, else rdp_fixed(m).
-Thresholds include every attained c_k (exact-tie probes).  Costs within 1e-9 of t, and non-robust ties,
-are ambiguous: every k* they allow is accepted.
+Thresholds include values just below / just above every attained c_k (2^-20 relative).  Costs within 1e-9 of t,
+equality included, are ambiguous: every k* they allow is accepted.
 """
 import itertools
 import numpy as np
@@ -19,18 +19,18 @@ import kneeliverse.evaluation as evaluation
 
 ID = 'C06'
 TITLE = 'Global RDP stops at the first refinement whose global cost meets the threshold'
-RULE = ('cases = (curve, distance, order, metric, threshold[, min_points]) full product below the bound, thresholds = fixed values plus every '
+RULE = ('cases = (curve, distance, order, metric, threshold[, min_points]) full product below the bound, thresholds = fixed values plus the neighbours (2^-20 relative) of every '
         'attained global cost c_k of the chain; non-trivial = the accepted refinement has k* > 2 (at least one insertion) and k* < n')
 ASSUMPTIONS = [
     'the fixed-size chain S_k is taken from rdp.rdp_fixed itself (its own correctness is C05) and c_k from evaluation.compute_global_cost with a fresh cache (its definition is C15)',
-    'c_k within 1e-9 relative of t is ambiguous; c_k == t is decisive only if the value is robust under three summation orders of the reference recomputation',
+    'c_k within 1e-9 relative of t (equality included: the statement does not assign it to a side) is ambiguous - every k* this allows is accepted',
 ]
 BOUNDS = {
     'quick': {'A': 'n<=3 complete', 'G12Y013 (gaps 1-2, y in 0,1,3)': 'n=4,5 complete', 'tie thresholds/chain': 3, 'Y013': 'n=6 (2 metrics)', 'trace windows': 'web0_reduced.csv w=10, usr0.csv[::64] w=12'},
     'thorough': {'A': 'n<=4 complete', 'A12': 'n=5 complete', 'G12Y013': 'n=6 complete', 'B': 'n=5', 'Y013': 'n=7 (2 metrics)', 'tie thresholds/chain': 4},
 }
-TECHNIQUE = 'bounded-exhaustive differential exploration: grdp / mp_grdp / min_point_rdp versus the rdp_fixed chain and fresh-cache global costs, with exact-tie thresholds'
-LEVEL_TEXT = ('Model checking: every curve of the alphabets up to the bound x 5 metrics x 2 distances x 3 orders x thresholds (incl. ties) x min_points; '
+TECHNIQUE = 'bounded-exhaustive differential exploration: grdp / mp_grdp / min_point_rdp versus the rdp_fixed chain and fresh-cache global costs, with thresholds just below and just above every attained cost'
+LEVEL_TEXT = ('Model checking: every curve of the alphabets up to the bound x 5 metrics x 2 distances x 3 orders x thresholds (incl. the neighbours of every attained cost) x min_points; '
               'the three global variants must select exactly the first accepting member of the fixed-size chain, which also checks that the shared '
               'segment cache never changes a decision and that the grdp -> rdp_fixed hand-over continues the same greedy path.')
 LEVEL_NOTE = 'Differential: a defect shared by rdp_fixed and grdp is C05\'s to find. Bounded by n and alphabets.'
@@ -78,9 +78,8 @@ def status(metric, c, t, robust):
     if c != c:
         return 'amb'
     if c == t:
-        r = robust()
-        if r is not None and r == c:
-            return 'acc' if metric == 'r2' else 'rej'
+        # "on the accepting side of t" does not say to which side equality belongs, and a cost that equals t in one
+        # evaluation order is an ulp away in another (DESIGN.md 10.6, rewrite C06s): a tie decides nothing
         return 'amb'
     if abs(c - t) <= 1e-9 * max(1.0, abs(t)):
         return 'amb'
@@ -138,7 +137,17 @@ class Ctx:
             v = c[k]
             if v == v and 0.0 < v < float('inf') and (metric != 'r2' or v <= 1.0) and v not in ts and v not in ties:
                 ties.append(v)
-        return ts, ties[:MAX_TIES]
+        # a threshold EQUAL to an attained cost decides nothing for that member (see status); probe just below and
+        # just above it instead (2^-20 relative, far outside the 1e-9 ambiguity window): both sides for the first
+        # attained cost, alternating sides for the others
+        D = 2.0 ** -20
+        out = []
+        for i, v in enumerate(ties[:MAX_TIES]):
+            for side in ((-1, 1) if i == 0 else ((-1,) if i % 2 else (1,))):
+                t = v * (1.0 + side * D)
+                if t > 0.0 and (metric != 'r2' or t <= 1.0) and t not in ts and t not in out:
+                    out.append(t)
+        return ts, out
 
 
 def check_global(ctx, func, metric, t, m, stats):
@@ -225,7 +234,7 @@ def run_unit(unit, res):
                 for metric in (lib.METRIC_NAMES if not reduced_cfg else ('smape', 'r2')):
                     try:
                         fixed, ties = ctx.thresholds(metric)
-                        ties = ties[:maxties]
+                        ties = ties[:maxties + 1]
                     except Exception as e:  # noqa: BLE001
                         res.fail(Failure('evaluation.compute_global_cost', 'primitive-' + lib.exc_kind(e), lib.pts_key(xs, ys),
                                          {'oracle': 'global', 'func': 'grdp', 'x': xs, 'y': ys,
